@@ -92,6 +92,19 @@ func VerifC17Reads() {
 		}
 		forward = nd.Bool("forward")
 	}
+	// a projection (names through a placeholder used nowhere else, or written out) on the plain requests
+	proj := ""
+	var names1 map[string]*string
+	var names2 map[string]string
+	if filter == "" && limit == 0 {
+		switch nd.Choice("projection", 3) {
+		case 1:
+			proj = "#a, s"
+			names1, names2 = map[string]*string{"#a": aws1.String("f")}, map[string]string{"#a": "f"}
+		case 2:
+			proj = "f"
+		}
+	}
 	var esk1 item1
 	var esk2 item2
 	for page := 0; page <= n+1; page++ {
@@ -112,6 +125,10 @@ func VerifC17Reads() {
 			}
 			if limit > 0 {
 				in1.Limit, in2.Limit = aws1.Int64(int64(limit)), aws2.Int32(int32(limit))
+			}
+			if proj != "" {
+				in1.ProjectionExpression, in2.ProjectionExpression = aws1.String(proj), aws2.String(proj)
+				in1.ExpressionAttributeNames, in2.ExpressionAttributeNames = names1, names2
 			}
 			err1 = catch(func() error {
 				o, e := c1.Query(in1)
@@ -141,6 +158,10 @@ func VerifC17Reads() {
 			}
 			if limit > 0 {
 				in1.Limit, in2.Limit = aws1.Int64(int64(limit)), aws2.Int32(int32(limit))
+			}
+			if proj != "" {
+				in1.ProjectionExpression, in2.ProjectionExpression = aws1.String(proj), aws2.String(proj)
+				in1.ExpressionAttributeNames, in2.ExpressionAttributeNames = names1, names2
 			}
 			err1 = catch(func() error {
 				o, e := c1.Scan(in1)
@@ -431,6 +452,70 @@ func VerifC17Catalogue() {
 				nd.Assert(sameItems(i1, i2), id+"-same-index-contents")
 			}
 		}
+	}
+	nd.Reach("end")
+}
+
+// VerifC17Batch: a BatchWriteItem of any size 0..27 and composition (last request a put, a delete, both or
+// neither; one table or two) has the same outcome class through both clients and leaves the same contents.
+func VerifC17Batch() {
+	c1, c2 := v1.NewClient(), v2.NewClient()
+	for _, name := range []string{tbl, "tb2"} {
+		e1, e2 := v1.AddTable(c1, name, "p", ""), v2.AddTable(ctx, c2, name, "p", "")
+		nd.Assert(e1 == nil && e2 == nil, "C17b-create")
+	}
+	n := nd.Int("count", 0, 27)
+	last := nd.Choice("last-request", 4)
+	r1 := []*ddb1.WriteRequest{}
+	r2 := []types2.WriteRequest{}
+	for i := 0; i < n; i++ {
+		k := "k" + string(rune('a'+i))
+		a := &ddb1.WriteRequest{PutRequest: &ddb1.PutRequest{Item: item1{"p": s1(k)}}}
+		b := types2.WriteRequest{PutRequest: &types2.PutRequest{Item: item2{"p": s2(k)}}}
+		if i == n-1 {
+			switch last {
+			case 1:
+				a = &ddb1.WriteRequest{DeleteRequest: &ddb1.DeleteRequest{Key: item1{"p": s1(k)}}}
+				b = types2.WriteRequest{DeleteRequest: &types2.DeleteRequest{Key: item2{"p": s2(k)}}}
+			case 2:
+				a.DeleteRequest = &ddb1.DeleteRequest{Key: item1{"p": s1(k)}}
+				b.DeleteRequest = &types2.DeleteRequest{Key: item2{"p": s2(k)}}
+			case 3:
+				a, b = &ddb1.WriteRequest{}, types2.WriteRequest{}
+			}
+		}
+		r1, r2 = append(r1, a), append(r2, b)
+	}
+	in1, in2 := map[string][]*ddb1.WriteRequest{tbl: r1}, map[string][]types2.WriteRequest{tbl: r2}
+	if h := len(r1) / 2; h >= 1 && nd.Choice("two-tables", 2) == 1 {
+		in1 = map[string][]*ddb1.WriteRequest{tbl: r1[:h], "tb2": r1[h:]}
+		in2 = map[string][]types2.WriteRequest{tbl: r2[:h], "tb2": r2[h:]}
+	}
+	var u1, u2 int
+	err1 := catch(func() error {
+		o, e := c1.BatchWriteItem(&ddb1.BatchWriteItemInput{RequestItems: in1})
+		if e == nil {
+			for _, l := range o.UnprocessedItems {
+				u1 += len(l)
+			}
+		}
+		return e
+	})
+	err2 := catch(func() error {
+		o, e := c2.BatchWriteItem(ctx, &ddb2.BatchWriteItemInput{RequestItems: in2})
+		if e == nil {
+			for _, l := range o.UnprocessedItems {
+				u2 += len(l)
+			}
+		}
+		return e
+	})
+	nd.Assert(class1(err1) == class2(err2), "C17b-batch-same-error-class")
+	nd.Assert(u1 == u2, "C17b-batch-same-unprocessed-count")
+	for _, name := range []string{tbl, "tb2"} {
+		o1, e1 := c1.Scan(&ddb1.ScanInput{TableName: aws1.String(name)})
+		o2, e2 := c2.Scan(ctx, &ddb2.ScanInput{TableName: aws2.String(name)})
+		nd.Assert(e1 == nil && e2 == nil && sameItems(o1.Items, o2.Items), "C17b-batch-same-contents")
 	}
 	nd.Reach("end")
 }
